@@ -64,7 +64,11 @@ CONTENTS = [
     "def f(\n",  # malformed
     "",
     _py([5, 32]).replace("\n\ndef ", "\n\r\ndef ", 1),  # content 0 with one lone carriage return (a line break to the tool) and nothing else changed
+    _py([60] * 110 + [5]),   # 6: a file of well over 64 KiB ...
+    _py([60] * 110 + [40]),  # 7: ... and the same file with only its last function changed (the size stays within the same 64 KiB multiple)
+    _py([60] * 55 + [7]),    # 8: half as big
 ]
+BIG_CONTENTS = (6, 7, 8)  # not part of the enumerated alphabet / the machine's rules (each scan lexes > 100 KiB): see big_file_histories
 EXCLUSIONS = [[], ["gen/"], ["*.js"], ["src/app.py"], ["lib/*"], ["app.py"]]
 INITIAL = {"src/app.py": 0, "lib/app.py": 1, "src/util.js": 2, "tests/t.py": 0, ".hidden.py": 0}
 OTHER_VERSION = "0.0.1-other"
@@ -433,6 +437,23 @@ def enum_sequences(col, tier, part, nparts, length):
     col.label(f"enumerated:length{length}")
 
 
+def big_file_histories(col):
+    """Deterministic histories around a source file larger than 64 KiB whose edits stay in its tail."""
+    n = nt = 0
+    for path in ("src/app.py", "lib/app.py"):
+        for seq in ([6, 7], [7, 6], [6, 7, 6], [8, 6, 7], [6, 8, 7]):
+            hist = [["scan"]]
+            for c in seq:
+                hist += [["write", path, c], ["scan"]]
+            bad, nontrivial, scans = run_history(hist)
+            n += 1
+            nt += 1
+            if bad:
+                col.fail({"ops": hist}, bad[0], bad[1])
+    col.bulk(n, nt)
+    col.label("big-file-histories")
+
+
 # --------------------------------------------------------------------------- (b) Hypothesis rule-based state machine
 
 
@@ -453,7 +474,7 @@ def make_machine(col):
                 if bad:
                     self.failed = (bad[0], f"after step {len(self.ops)} ({list(op)}): {bad[1]}\nhistory: {self.ops}")
 
-        @rule(p=paths, c=st.integers(0, len(CONTENTS) - 1))
+        @rule(p=paths, c=st.integers(0, len(CONTENTS) - 1 - len(BIG_CONTENTS)))
         def write(self, p, c):
             self._do(("write", p, c))
 
@@ -469,7 +490,7 @@ def make_machine(col):
         def touch(self, p):
             self._do(("touch", p))
 
-        @rule(p=paths, c=st.integers(0, len(CONTENTS) - 1))
+        @rule(p=paths, c=st.integers(0, len(CONTENTS) - 1 - len(BIG_CONTENTS)))
         def write_old(self, p, c):
             self._do(("write_old", p, c))
 
@@ -536,6 +557,7 @@ def plan(tier, seed):
     if not quick:
         for p in range(96):
             jobs.append(("enum_sequences", {"tier": "quick", "part": p, "nparts": 96, "length": 3}))
+    jobs.append(("big_file_histories", {}))
     for i in range(16):
         jobs.append(("machines", {"seed": shard_seed(seed, ID, i), "n": 15 if quick else 300, "steps": 25 if quick else 50}))
     return jobs
